@@ -107,6 +107,7 @@ func (tp *ethTxPool) loop() {
 }
 
 func (tp *ethTxPool) Lock() {
+	verifPoolLockGate()
 	tp.mtx.Lock()
 }
 
